@@ -63,12 +63,19 @@ func NewMultiPhraseSearcher(indexReader search.Reader, terms [][]string, field s
 // the value of the slop parameter restricts the distance between the terms
 func NewSloppyMultiPhraseSearcher(indexReader search.Reader, terms [][]string, field string, slop int,
 	scorer search.Scorer, options search.SearcherOptions) (*PhraseSearcher, error) {
+	return NewSloppyMultiPhraseSearcherBoost(indexReader, terms, field, slop, 1.0, scorer, options)
+}
+
+// NewSloppyMultiPhraseSearcherBoost is NewSloppyMultiPhraseSearcher with a boost
+// applied to the score of every term of the phrase
+func NewSloppyMultiPhraseSearcherBoost(indexReader search.Reader, terms [][]string, field string, slop int,
+	boost float64, scorer search.Scorer, options search.SearcherOptions) (*PhraseSearcher, error) {
 	options.IncludeTermVectors = true
 	var termPositionSearchers []search.Searcher
 	for _, termPos := range terms {
 		if len(termPos) == 1 && termPos[0] != "" {
 			// single term
-			ts, err := NewTermSearcher(indexReader, termPos[0], field, 1.0, scorer, options)
+			ts, err := NewTermSearcher(indexReader, termPos[0], field, boost, scorer, options)
 			if err != nil {
 				// close any searchers already opened
 				for _, ts := range termPositionSearchers {
@@ -84,7 +91,7 @@ func NewSloppyMultiPhraseSearcher(indexReader search.Reader, terms [][]string, f
 				if term == "" {
 					continue
 				}
-				ts, err := NewTermSearcher(indexReader, term, field, 1.0, scorer, options)
+				ts, err := NewTermSearcher(indexReader, term, field, boost, scorer, options)
 				if err != nil {
 					// close any searchers already opened
 					for _, ts := range termPositionSearchers {
